@@ -106,6 +106,13 @@ Lemma C18_loop_scope_old_refuted :
   scope_from_text [utf8_decode "@pytest_asyncio.fixture(loop_scope=""session"", scope=""module"")"] = Some 2.
 Proof. repeat split; vm_compute; reflexivity. Qed.
 
+Theorem C18_scope_keyword_not_inside_identifier :
+  forall pat t fuel from p,
+    find_kw fuel pat t from = Some p ->
+    exists pre, slice_to t p = Some pre /\ match rev pre with c :: _ => ident_char c = false | [] => True end.
+Proof. exact find_kw_not_inside_identifier. Qed.
+Print Assumptions C18_scope_keyword_not_inside_identifier.
+
 (** the parameters typed so far, on an instance *)
 Example C18_declared_from_text_example :
   declared_from_text [utf8_decode "    def test_x(db, client: int = 3, *, cfg"] = ["db"; "client"; "cfg"].
